@@ -411,7 +411,10 @@ def run_interleave(case):
     updates = 0
     checks = 0
     for step in range(3 * (mi + 2) + 4):
-        if rng.random() < 0.6 or updates >= mi + 2:
+        # (no update is issued once done() has answered True: the statement is about drivers
+        # that honour done(); conjugate gradients with tol = 0 pushed on after its residual
+        # has underflowed to exactly 0 divides 0 by 0 - outside what is promised)
+        if rng.random() < 0.6 or updates >= mi + 2 or was_done:
             s0 = snap(sol)
             it0 = alg.iter
             vals = [alg.done() for _ in range(int(rng.integers(1, 4)))]
